@@ -68,7 +68,7 @@ func newChecker(name string, f plugintypes.Transformation, s sink) *checker {
 		k.definition = func(in string) (string, bool) { return asciiFold(in, 'A', 'Z', 'a'-'A') }
 	case "uppercase":
 		k.definition = func(in string) (string, bool) { return asciiFold(in, 'a', 'z', -('a' - 'A')) }
-	case "trim", "trimleft", "trimright", "removewhitespace", "removenulls":
+	case "trim", "trimleft", "trimright", "removewhitespace", "removenulls", "compresswhitespace":
 		k.idempotent = true
 	}
 	return k
